@@ -261,7 +261,8 @@ PROPS['C06'] = {
 PROPS['C08'] = {
     'title': 'Convex hull is the smallest convex polygon containing the input',
     'level': 'proof',
-    'verus': ['c01_nodekey'],
+    'verus': ['c01_nodekey', 'c08_partition'],
+    'twins': {'C08.V.partition_slice': r'^c08_k_partition_slice$'},
     'kani_extra': ['--no-memory-safety-checks', '--no-overflow-checks', '--no-assertion-reach-checks'],
     'kani': [
         ('geo', 'c08.rs', r'^c08_k_(lex_cmp_and_least_index|swap_with_first_and_remove)$', 'complete', 'quick'),
